@@ -9,7 +9,8 @@ import re
 
 from engines.paths import enumerate_paths
 from engines.prog import cname, op_const, op_place, term_str, term_contains
-from engines import wire
+from engines import tables, wire
+from engines import terms as T
 from spec import errors as SPEC
 
 CONFIGS = ["tls"]
@@ -73,19 +74,21 @@ def run(ctx):
     # ---- From<u16> ---------------------------------------------------------------------------
     frm = prog.one(r"^<errorcodes::ErrorKind as std::convert::From<u16>>::from$|ErrorKind as std::convert::From<u16>>::from$")
     ctx.fn(frm)
-    sw = frm.term(0)
-    if not ctx.ob("C13.code-bijection", sw["k"] == "switch" and op_place(sw["discr"]) and op_place(sw["discr"])["l"] == 1,
-                  "From<u16>::from does not start with a switch on its argument", fn=frm.path, construct="switch", where=frm.where(0)):
+    def is_code(t):
+        t = T.peel(t)
+        return T.is_param(t, 1)
+    ftab, fopen = tables.value_table(frm, is_code)
+    if not ctx.ob("C13.code-bijection", len(ftab) > 0, "From<u16>::from does not decide on its argument (no path pins the code to a value)", fn=frm.path, construct="switch", where=frm.where(0)):
         return
     seen_variants = {}
-    for val, tgt in zip(sw["vals"], sw["tgts"]):
-        v = int(val)
-        rv = _block_const_assign(frm, tgt)
-        built = rv["vname"] if rv and rv["k"] == "agg" and rv.get("ak") == "adt" and rv["adt"].endswith("ErrorKind") else None
+    for v in sorted(ftab):
+        rvs = ftab[v]
+        names = {rv[3] if isinstance(rv, tuple) and rv[0] == "agg" and (rv[2] or "").endswith("ErrorKind") else None for rv in rvs}
+        built = list(names)[0] if len(names) == 1 else None
         ok = built is not None and byname.get(built) == v
         ctx.ob("C13.code-bijection", ok,
-               "From<u16>: %d constructs %s whose code is %s" % (v, built, byname.get(built)),
-               fn=frm.path, construct="switch-arm", callee=str(built), where=frm.where(tgt), key_extra={"value": v},
+               "From<u16>: %d constructs %s whose code is %s" % (v, built if len(names) == 1 else sorted(map(str, names)), byname.get(built)),
+               fn=frm.path, construct="switch-arm", callee=str(built), where=frm.where(0), key_extra={"value": v},
                sample={"rule": "code-bijection", "value": v, "variant": built} if v in (1045, 1064) else None)
         if built:
             seen_variants.setdefault(built, []).append(v)
@@ -93,33 +96,28 @@ def run(ctx):
         ctx.ob("C13.code-bijection", len(seen_variants.get(name, [])) == 1,
                "variant %s (code %d) is produced by %d arms of From<u16> (must be exactly one)" % (name, d, len(seen_variants.get(name, []))),
                fn=frm.path, construct="variant-coverage", callee=name, where=frm.where(0))
-    # otherwise arm only diverges
-    oth = sw["otherwise"]
-    reach = frm.reachable(oth)
-    rets = [b for b in reach if frm.term(b)["k"] == "return"]
-    ctx.ob("C13.code-bijection", not rets, "the default arm of From<u16> can return a value (an undefined code silently maps to some kind)",
-           fn=frm.path, construct="otherwise", where=frm.where(oth))
+    # a code that is not pinned to a defined value never yields a kind: those paths diverge
+    ctx.ob("C13.code-bijection", not fopen, "From<u16> can return a value on a path that does not pin the code to a defined value (an undefined code silently maps to some kind)",
+           fn=frm.path, construct="otherwise", where=frm.where(fopen[0][0].blocks[-1]) if fopen else None)
 
     # ---- sqlstate ------------------------------------------------------------------------------
     ss = prog.one(r"errorcodes::ErrorKind::sqlstate$")
     ctx.fn(ss)
-    sw = None
-    for b in range(ss.n):
-        if ss.term(b)["k"] == "switch":
-            sw = (b, ss.term(b))
-            break
-    if not ctx.ob("C13.sqlstate-total", sw is not None, "sqlstate() has no switch on the discriminant", fn=ss.path, construct="switch"):
+    def is_kind(t):
+        return isinstance(t, tuple) and t[0] == "discr" and T.is_param(T.peel(t[1]), 1)
+    stab, sopen = tables.value_table(ss, is_kind)
+    if not ctx.ob("C13.sqlstate-total", len(stab) > 0, "sqlstate() has no decision on the discriminant", fn=ss.path, construct="switch"):
         return
-    b0, swt = sw
     table = {}
     states = set()
-    for val, tgt in zip(swt["vals"], swt["tgts"]):
-        rv = _block_const_assign(ss, tgt)
-        c = op_const(rv["op"]) if rv and rv["k"] == "use" else None
-        by = bytes(c["bytes"]) if c and "bytes" in c else None
+    for val in sorted(stab):
+        bys = set()
+        for rv in stab[val]:
+            bys.add(T.const_bytes(T.peel(rv)))
+        by = list(bys)[0] if len(bys) == 1 else None
         ok = by is not None and len(by) == 5 and re.fullmatch(rb"[0-9A-Z]{5}", by) is not None
         ctx.ob("C13.sqlstate-total", ok, "sqlstate arm for code %s yields %r (need 5 bytes [0-9A-Z])" % (val, by),
-               fn=ss.path, construct="switch-arm", where=ss.where(tgt), key_extra={"value": int(val)}, nontrivial=False)
+               fn=ss.path, construct="switch-arm", where=ss.where(0), key_extra={"value": int(val)}, nontrivial=False)
         table[int(val)] = by
         if by:
             states.add(by)
@@ -166,25 +164,31 @@ def run(ctx):
         return isinstance(t, tuple) and t[0] == "param" and t[1] == i
 
     for p, cls, ems in seqs:
-        desc = [e.short() for e in ems]
-        ok = len(ems) == 6
-        why = "expected 6 emissions, got %d: %s" % (len(ems), desc)
+        sb = wire.sym_bytes(ems)
+        desc = wire.sym_str(sb)
+        # ff | kind as u16 (little endian) | '#' | kind.sqlstate() | msg | one packet end — however the bytes are grouped into writes
+        ok = len(sb) == 7
+        why = "byte stream is %s" % desc
         if ok:
-            e0, e1, e2, e3, e4, e5 = ems
+            c0, l0, l1, c1, st_, msg_, end_ = sb
+
+            def is_code(t):
+                return isinstance(t, tuple) and t[0] == "cast" and t[2] == "u16" and t[1][0] == "discr" and is_param(T.peel(t[1][1]), ki)
+            def partial(t):
+                return T.find(t, lambda x: isinstance(x, tuple) and x[0] == "agg" and re.search(r"ops::Range(From|To|Inclusive|ToInclusive)?$", x[2] or "") is not None) is not None
             checks = [
-                (e0.const_bytes() == b"\xff", "slot 0 must be the constant byte ff"),
-                (e1.kind == "fixed" and e1.width == 2 and e1.value[0] == "cast" and e1.value[2] == "u16"
-                 and e1.value[1][0] == "discr" and is_param(e1.value[1][1], ki), "slot 1 must be `kind as u16` (2 bytes)"),
-                (e2.const_bytes() == b"#", "slot 2 must be the constant '#'"),
-                (e3.kind == "raw" and e3.value[0] == "call" and e3.value[1].endswith("ErrorKind::sqlstate")
-                 and is_param(e3.value[2][0], ki), "slot 3 must be kind.sqlstate() written whole"),
-                (e4.kind == "raw" and is_param(e4.value, mi), "slot 4 must be the msg parameter written whole (got %s)" % term_str(e4.value)),
-                (e5.kind == "end_packet", "the ERR packet must be ended exactly once after the message"),
+                (not partial(st_[1]) and not partial(msg_[1]) if st_[0] == "blob" and msg_[0] == "blob" else True, "SQLSTATE and message must be written whole, not a sub-range"),
+                (c0 == ("c", 0xFF), "byte 0 must be the constant ff"),
+                (l0[0] == "le" and l1[0] == "le" and l0[2:] == (0, 2) and l1[2:] == (1, 2) and is_code(l0[1]) and is_code(l1[1]), "bytes 1-2 must be `kind as u16`, little endian"),
+                (c1 == ("c", 0x23), "byte 3 must be the constant '#'"),
+                (st_[0] == "blob" and T.is_call(T.peel(st_[1]), r"ErrorKind::sqlstate$") and is_param(T.peel(T.peel(st_[1])[2][0]), ki), "then kind.sqlstate() written whole"),
+                (msg_[0] == "blob" and is_param(T.peel(msg_[1]), mi), "then the msg parameter written whole (got %s)" % term_str(msg_[1])),
+                (end_ == ("end",), "the ERR packet must be ended exactly once after the message"),
             ]
             for c, w in checks:
                 if not c:
                     ok = False
-                    why = w
+                    why = w + " (byte stream: %s)" % desc
                     break
         ctx.ob("C13.err-layout", ok, "ERR layout: " + why, fn=we.path, construct="emission-sequence", where=we.where(p.blocks[-1]),
                sample={"rule": "err-layout", "path_blocks": len(p.blocks), "sequence": desc})
